@@ -6,6 +6,9 @@ class StackFrame:
     def __init__(self, parent=None):
         self.vars = parent.vars if parent is not None else {}
         self.params = {}
+        # Parameters for a call that is being set up. They become visible when
+        # the routine is entered.
+        self.incoming = {}
         self.parent = parent
         self.constants = parent.constants if parent is not None else None
         self.globals = parent.globals if parent is not None else self.vars
@@ -65,11 +68,14 @@ class CallStack:
         return self._top
 
     def put_param(self, name, value=None) -> None:
-        self._top.params[name] = value
+        # The remaining arguments are still evaluated in the caller's scope, so
+        # the new parameter must not be visible yet.
+        self._top.incoming[name] = value
 
     def enter_routine(self) -> None:
         # Upon entering the routine, the only available varaiables are the
         # incoming parameters.
+        self._top.params = self._top.incoming
         self._top.vars = self._top.params
 
     def exit_routine(self) -> None:
